@@ -1,22 +1,2 @@
 //! scratch probes (not registered: no @prop tag)
 use super::util::*;
-use std::task::Poll;
-
-with_lean_model! {
-#[kani::proof]
-#[kani::unwind(5)]
-#[kani::stub(alloc::fmt::format, empty_format)]
-#[kani::stub(<crate::chmux::PortNumber as std::ops::Drop>::drop, noop_port_number_drop)]
-fn c99_r11_close() {
-    let (evt_tx, mut evt_rx) = tokio::sync::mpsc::channel(4);
-    let (data_tx, data_rx) = tokio::sync::mpsc::unbounded_channel();
-    let (mon, returner) = hc::monitor_pair(16);
-    let mut rx = hr::receiver_new(11, 77, 8, 4, evt_tx, data_rx, returner, hp::allocator_new(8), hst::storage_new());
-    let res = { let mut slot = Slot::new(rx.close()); slot.poll() };
-    assert!(res.is_ready());
-    assert!(hr::receiver_flags(&rx).0);
-    assert!(matches!(pop_evt(&mut evt_rx), Evt::ReceiverClosed { local_port: 11 }));
-    tokio::model::forget_tasks();
-    std::mem::forget((rx, data_tx, evt_rx, mon, res));
-}
-}
